@@ -250,6 +250,7 @@ def open_ended(chk, c, rule):
             if len(apps) == 1 and apps[0].args:
                 iters.append((n.iter, n.target, apps[0].args[0], apps[0], False))
     for it, tgt, elt, holder, filtered in iters:
+        it = pat.inline_locals(it, gc.node)
         if not (isinstance(it, ast.Call) and norm(it.func) in ('range', 'xrange') and len(it.args) == 2):
             continue
         if pat.plus_one_of(it.args[0]) != LA or pat.plus_one_of(it.args[1]) != LU:
